@@ -7,7 +7,7 @@ import torch
 from hypothesis import strategies as st
 
 from checks.c03_dataset_wrappers import ClassRoot, layout, with_layout
-from vlib.core import Case, Facet, Refused, Violation
+from vlib.core import Case, Facet, Refused, Violation, guarded
 
 # thorough-tier budgets of every facet are multiplied by this factor (sized for ~5-8 min on 16 cores)
 THOROUGH_SCALE = 6
@@ -333,6 +333,29 @@ def check_label_smoothing(spec):
     return Case(nontrivial_layout(spec) or s in (0, 1) or spec["C"] == 1, ["binary" if spec["C"] == 1 else "multi"])
 
 
+def check_encoding_follows_class_count(spec):
+    """the encoding wrappers announce their range through the wrapped dataset: when an inner KDRandomClassWrapper is
+    re-configured (num_classes setter), later encodings follow the new class count"""
+    from kappadata.wrappers import KDRandomClassWrapper, LabelSmoothingWrapper, OneHotWrapper
+    root = make_root(spec)
+    inner = KDRandomClassWrapper(root, mode="random", num_classes=spec["nc1"], seed=spec["seed"])
+    w = LabelSmoothingWrapper(inner, smoothing=spec["smoothing"]) if spec["enc"] == "smooth" else OneHotWrapper(inner)
+    for nc in (spec["nc1"], spec["nc2"], spec["nc1"]):
+        inner.num_classes = nc
+        C = w.getshape_class()[0]
+        if C != nc:
+            raise Violation("encoding-wrapper-shape-query-stale", f"getshape_class {C} after num_classes={nc}")
+        for i in range(len(root)):
+            v = w.getitem_class(i)
+            c = inner.getitem_class(i)
+            if not torch.is_tensor(v) or tuple(v.shape) != (nc,):
+                raise Violation(f"encoding-length-differs-from-announced-class-count:{spec['enc']}",
+                                f"num_classes set to {nc}: encoding has shape {tuple(getattr(v, 'shape', ()))}")
+            if abs(float(v.sum()) - 1) > 1e-5 or float(v[c]) < float(v.max()) - 1e-7:
+                raise Violation(f"encoding-wrong-after-class-count-change:{spec['enc']}", f"{v.tolist()} for class {c} of {nc}")
+    return Case(True, [spec["enc"]], 3)
+
+
 def check_one_hot(spec):
     from kappadata.wrappers import OneHotWrapper
     if spec["C"] == 1:
@@ -384,7 +407,7 @@ def L(extra, unlabeled=False, internal=False, **kw):
     return base.flatmap(lambda s: st.sampled_from(kinds).map(lambda b: dict(s, bulk=b)))
 
 
-SEED = st.integers(0, 2 ** 31 - 1)
+SEED = st.one_of(st.just(0), st.integers(0, 2 ** 31 - 1))  # 0 is a legal seed and a classic falsy-value trap
 S_GROUPS = L(st.fixed_dictionaries({"gsel": st.integers(0, 7), "shuffle": st.booleans(), "seed": SEED}))
 S_SUPER = L(st.fixed_dictionaries({"cps": st.integers(0, 7), "splits": st.integers(1, 3), "shuffle": st.booleans(), "seed": SEED}))
 S_SWAP = L(st.fixed_dictionaries({"p": st.one_of(st.sampled_from([0.0, 1.0, 0.5]), st.floats(0, 1)), "seed": SEED}))
@@ -405,11 +428,14 @@ def F(name, fn, strat, q=500, t=6000):
                  shards={"quick": 1, "thorough": 4}, min_nontrivial={"quick": q // 12, "thorough": t // 12}, case_timeout=60)
 
 
+S_RECONF = L(st.fixed_dictionaries({"nc1": st.integers(2, 6), "nc2": st.integers(2, 9), "seed": SEED, "enc": st.sampled_from(["smooth", "onehot"]),
+                                    "smoothing": st.sampled_from([0.1, 0.5])}))
 S_STACKED = L(st.fixed_dictionaries({"chain": st.lists(st.fixed_dictionaries({
     "k": st.sampled_from(["groups", "super", "swap", "semi", "allgather", "overwrite"]), "a": st.integers(0, 50)}), min_size=2, max_size=3)}))
 
 FACETS = [
     F("stacked-wrappers", check_stacked, S_STACKED, q=600, t=8000),
+    F("encoding-follows-class-count", guarded("encoding-follows-class-count", check_encoding_follows_class_count), S_RECONF, q=200, t=2000),
     F("class-groups", check_class_groups, S_GROUPS),
     F("random-superclass", check_random_superclass, S_SUPER),
     F("swap-label", check_swap_label, S_SWAP),
